@@ -3,6 +3,7 @@ NNLinker._fit_core (model `SkNet.Classify.Linker`): for any selection `np.argpar
 of a row satisfy the row specification.  Also the probability rows of `Propagation`.
 -/
 import SkNet.Lemmas.ClassifyRows
+import SkNet.Lemmas.ClassifyDiffusion
 import Mathlib.Data.List.Nodup
 import Mathlib.Data.List.Perm.Subperm
 
@@ -122,5 +123,57 @@ theorem propagation_probsRow_ok (c : Csr Rat) (hw : ∀ p, 0 ≤ c.data.getD p 0
   unfold Csr.row at hmem
   obtain ⟨p, _, rfl⟩ := List.mem_map.mp hmem
   exact hw p
+
+/-! ### routing keeps the weights non-negative -/
+
+theorem blockCsr_nonneg (b : Csr Rat) (hw : ∀ p, 0 ≤ b.data.getD p 0) : ∀ p, 0 ≤ (blockCsr b).data.getD p 0 := by
+  intro p
+  apply Vote.getD_nonneg_of_forall
+  intro x hx
+  unfold blockCsr at hx
+  simp only [List.mem_flatMap, List.mem_map] at hx
+  obtain ⟨row, hrow, e, he, rfl⟩ := hx
+  obtain ⟨i, _, rfl⟩ := (mem_tab _ _ _).mp hrow
+  have hrow_nonneg : ∀ r, ∀ e ∈ b.row r, 0 ≤ e.2 := by
+    intro r e he
+    unfold Csr.row at he
+    obtain ⟨q, _, rfl⟩ := List.mem_map.mp he
+    exact hw q
+  split at he
+  · obtain ⟨e0, he0, rfl⟩ := List.mem_map.mp he
+    exact hrow_nonneg i e0 he0
+  · simp only [List.mem_flatMap, List.mem_range, List.mem_map, List.mem_filter] at he
+    obtain ⟨r, _, e0, ⟨he0, _⟩, rfl⟩ := he
+    exact hrow_nonneg r e0 he0
+
+theorem routed_adj (c : Csr Rat) (fb : Bool) (v r cc : Seeds) (rt : Routed)
+    (h : adjacencyValues c fb v r cc = .ok rt) : rt.adj = c ∨ rt.adj = blockCsr c := by
+  unfold adjacencyValues at h
+  split at h
+  · cases h
+  · split at h
+    · right
+      cases hs : (if v.given then stackValues c.nRow c.nCol v .none else stackValues c.nRow c.nCol r cc) with
+      | error e => rw [hs] at h; cases h
+      | ok vals =>
+        rw [hs] at h
+        simp only [Except.map, Except.ok.injEq] at h
+        rw [← h]
+    · left
+      cases hs : getValues c.nRow v with
+      | error e => rw [hs] at h; cases h
+      | ok vals =>
+        rw [hs] at h
+        simp only [Except.map, Except.ok.injEq] at h
+        rw [← h]
+
+/-- `get_adjacency_values` hands non-negative weights on (square input: unchanged; bipartite: block matrix) -/
+theorem routed_nonneg (c : Csr Rat) (hw : ∀ p, 0 ≤ c.data.getD p 0) (fb : Bool) (v r cc : Seeds) (rt : Routed)
+    (h : adjacencyValues c fb v r cc = .ok rt) : ∀ p, 0 ≤ rt.adj.data.getD p 0 := by
+  rcases routed_adj c fb v r cc rt h with h1 | h1
+  · rw [h1]
+    exact hw
+  · rw [h1]
+    exact blockCsr_nonneg c hw
 
 end SkNet.Classify
